@@ -1,12 +1,11 @@
 /-
 C09  Identifiers are referenced verbatim; generated names never capture user names.
 
-* T1  `bare_is_regex_and_not_keyword`, `bare_never_sqlite_reserved`; the round trip of an emitted identifier through the SQL
-      identifier reader: FULL statement `ident_roundtrip_full` is false of the code as it is (`ident_roundtrip_counterexample`:
-      sqlparser prints a quoted `Ident` with the same "may already be escaped" heuristic as strings); proved:
-      `ident_roundtrip_partial` (names without a doubled or backslash-preceded quote character – in particular every
-      backtick-free name on the backtick dialects, `ident_roundtrip_backtick_dialects`), `ident_roundtrip_std` (plain
-      doubling: every name), `ident_roundtrip_patched` (repair: double the quote characters before building the Ident).
+* T1  `bare_is_regex_and_not_keyword`, `bare_never_sqlite_reserved`; `emit_ident_eq_doubling` (the quote character is doubled by
+      `translate_ident_part` and sqlparser's printer prints the doubled value verbatim: a quoted identifier is plain doubling);
+      the round trip of an emitted identifier through the SQL identifier reader, `ident_roundtrip_partial`, holds for every
+      dialect and every name except a bare name with a leading `$`; that exception makes the FULL statement
+      `ident_roundtrip_full` false (`ident_roundtrip_dollar_counterexample`, open finding).  `ident_roundtrip_std`: reference emitter.
 * T2  `assign_names_fresh` (all assigned names pairwise distinct and distinct from the names present before),
       `assign_names_keeps_leading` (named declarations that come first keep their names), `idgen_load_fresh` (T2a: ids generated
       after loading are above all loaded ids – so CTEs created by a split come last), and
@@ -81,14 +80,21 @@ def RestOk (d : Dialect) (rest : Src) : Prop := ∀ c, rest.head? = some c → c
 def ident_roundtrip_full : Prop :=
   ∀ (d : Dialect) (s rest : Src), s ≠ ['*'] → RestOk d rest → sqlLexIdent d (emitIdent d s ++ rest) = some (s, rest)
 
-/-- false as the code is: the column `a""b` is emitted as `"a""b"`, which names the column `a"b` -/
-theorem ident_roundtrip_counterexample : ¬ ident_roundtrip_full := by
-  intro h
-  have := h .sqlite ['a', '"', '"', 'b'] [' '] (by decide) (by intro c hc; simp at hc; subst hc; decide)
-  revert this
-  decide +kernel
+/-- a quoted identifier is its name with the quote character doubled: `translate_ident_part` doubles first (commit 3b64e89) and
+sqlparser's "may already be escaped" printer prints a doubled value verbatim -/
+theorem emit_ident_eq_doubling (d : Dialect) (s : Src) : emitIdent d s = emitIdentStd d s := by
+  unfold emitIdent emitIdentStd
+  split
+  · rfl
+  · simp [Model.Lit.sqlQuoteIdent, Model.Lit.identValue, Quote.quote, sqlEscape_esc]
 
-/-- also false for a bare name that starts with `$` (the regex lets it through): `$d` is not an identifier for the reader -/
+/-- the `Ident` value handed to sqlparser for a quoted name is the name with the quote character doubled -/
+theorem ident_value_doubled (d : Dialect) (s : Src) (h : identBare d s = false) :
+    identPart d s = (Quote.esc d.ident_quote s, some d.ident_quote) := by
+  simp [identPart, h, Model.Lit.identValue]
+
+/-- the full statement is still false, for one reason only: a bare name that starts with `$` (the regex lets it through); `$d` is not an
+identifier for the reader.  (Open finding `dollar-leading-identifier-emitted-bare`.) -/
 theorem ident_roundtrip_dollar_counterexample : ¬ ident_roundtrip_full := by
   intro h
   have := h .sqlite ['$', 'd'] [' '] (by decide) (by intro c hc; simp at hc; subst hc; decide)
@@ -140,29 +146,7 @@ theorem bare_roundtrip (d : Dialect) (s rest : Src) (hs : s ≠ ['*']) (hdollar 
     simp only [List.cons_append] at this
     simp [sqlLexIdent, hq, hst, this.1, this.2]
 
-/-- PARTIAL: the round trip holds for every name that does not start with `$` and in which no quote character follows a backslash or
-another quote character -/
-theorem ident_roundtrip_partial (d : Dialect) (s rest : Src) (hs : s ≠ ['*']) (hdollar : s.head? ≠ some '$') (hclean : Clean d.ident_quote (Char.ofNat 0) s)
-    (hrest : RestOk d rest) : sqlLexIdent d (emitIdent d s ++ rest) = some (s, rest) := by
-  unfold emitIdent
-  split
-  · next hb =>
-    have hv : Gen.Ident.validIdent s = true := by simp [identBare] at hb; exact hb.1.2
-    exact bare_roundtrip d s rest hs hdollar hv hrest
-  · have hr : rest.head? ≠ some d.ident_quote := fun e => (hrest _ e).1 rfl
-    have := Quote.quote_roundtrip d.ident_quote s rest hr
-    simp only [Model.Lit.sqlQuoteIdent, sqlEscape_clean _ _ s hclean, List.cons_append, List.append_assoc] at this ⊢
-    simpa [sqlLexIdent, Quote.quote] using this
-
-example : Clean '"' (Char.ofNat 0) ['m', 'y', ' ', 'c', '"', 'o', 'l', ';', '-', '-'] := by decide
-
-/-- on the dialects that quote with a backtick every name PRQL can spell (no backtick inside) round-trips -/
-theorem ident_roundtrip_backtick_dialects (d : Dialect) (hd : d.ident_quote = '`') (s rest : Src) (hs : s ≠ ['*'])
-    (hdollar : s.head? ≠ some '$') (hb : '`' ∉ s)
-    (hrest : RestOk d rest) : sqlLexIdent d (emitIdent d s ++ rest) = some (s, rest) :=
-  ident_roundtrip_partial d s rest hs hdollar (by rw [hd]; exact clean_of_not_mem _ _ _ hb) hrest
-
-/-- plain doubling of the quote character would be right for EVERY name -/
+/-- plain doubling of the quote character is right for every name that does not start with `$` -/
 theorem ident_roundtrip_std (d : Dialect) (s rest : Src) (hs : s ≠ ['*']) (hdollar : s.head? ≠ some '$') (hrest : RestOk d rest) :
     sqlLexIdent d (emitIdentStd d s ++ rest) = some (s, rest) := by
   unfold emitIdentStd
@@ -174,18 +158,16 @@ theorem ident_roundtrip_std (d : Dialect) (s rest : Src) (hs : s ≠ ['*']) (hdo
     have := Quote.quote_roundtrip d.ident_quote s rest hr
     simpa [sqlLexIdent, Quote.quote] using this
 
-/-- the repair (double the quote characters before building the `Ident`) makes the round trip hold for every name -/
-theorem ident_roundtrip_patched (d : Dialect) (s rest : Src) (hs : s ≠ ['*']) (hdollar : s.head? ≠ some '$') (hrest : RestOk d rest) :
-    sqlLexIdent d (emitIdentPatched d s ++ rest) = some (s, rest) := by
-  unfold emitIdentPatched
-  split
-  · next hb =>
-    have hv : Gen.Ident.validIdent s = true := by simp [identBare] at hb; exact hb.1.2
-    exact bare_roundtrip d s rest hs hdollar hv hrest
-  · have hr : rest.head? ≠ some d.ident_quote := fun e => (hrest _ e).1 rfl
-    have := Quote.quote_roundtrip d.ident_quote s rest hr
-    simp only [Model.Lit.sqlQuoteIdent, sqlEscape_esc, List.cons_append, List.append_assoc] at this ⊢
-    simpa [sqlLexIdent, Quote.quote] using this
+/-- PARTIAL (the one missing hypothesis is the leading `$`): for every dialect and EVERY other name – keywords, spaces, quote
+characters in any arrangement, backslashes, non-ASCII – the emitted identifier reads back as exactly that name and ends where
+the emitter ended it -/
+theorem ident_roundtrip_partial (d : Dialect) (s rest : Src) (hs : s ≠ ['*']) (hdollar : s.head? ≠ some '$')
+    (hrest : RestOk d rest) : sqlLexIdent d (emitIdent d s ++ rest) = some (s, rest) := by
+  rw [emit_ident_eq_doubling]
+  exact ident_roundtrip_std d s rest hs hdollar hrest
+
+example : sqlLexIdent .sqlite (emitIdent .sqlite ['q', '"', '"', 'q'] ++ [' ']) = some (['q', '"', '"', 'q'], [' ']) := by decide +kernel
+example : sqlLexIdent .postgres (emitIdent .postgres ['b', '\\', '"', 's'] ++ [' ']) = some (['b', '\\', '"', 's'], [' ']) := by decide +kernel
 
 /-! ## T2  names assigned to CTEs and relation instances -/
 
